@@ -3,3 +3,4 @@ import TsVerif.C12.Props
 #print axioms TsVerif.C12.edit_same_or_marked
 #print axioms TsVerif.C12.unmarked_shared
 #print axioms TsVerif.C12.marked_bound
+#print axioms TsVerif.C12.marked_upper
